@@ -39,6 +39,7 @@ def explore(world, setup, run, contracts=None, max_paths=MAX_PATHS, timeout_ms=4
         try:
             args = setup(it)
             it.n_setup_pc = len(it.pc)
+            it.initial_heap = snapshot_heap(args)
             val = run(it, args)
             res = PathResult(it, args, "return", val)
         except PyRaise as e:
@@ -96,7 +97,8 @@ class Obligation:
         return {"name": self.name, "func": self.func, "clause": self.clause, "props": self.props,
                 "status": self.status, "paths": self.paths, "queries": self.queries,
                 "solver_s": round(self.solver_s, 4), "backend": self.backend, "cex": self.cex,
-                "detail": self.detail}
+                "detail": self.detail, "kind": getattr(self, "kind", "rule"),
+                "no_input_expected": getattr(self, "no_input_expected", False)}
 
 
 def check_valid(it, goal, ob, timeout_ms=10000, cvc5_fallback=None):
@@ -252,13 +254,43 @@ def verify_function(world, func_name, setup, run, ensures, props, contracts=None
     return out, info
 
 
+def snapshot_heap(v, acc=None):
+    """(object, copy of its attributes) for every heap object reachable from the arguments: the
+    pre-state, from which counter-models are concretised (the path may have mutated the objects)"""
+    from .values import Obj, SOpt
+    if acc is None:
+        acc = {}
+    if isinstance(v, SOpt):
+        snapshot_heap(v.val, acc)
+    elif isinstance(v, Obj):
+        if id(v) not in acc:
+            acc[id(v)] = (v, dict(v.attrs))
+            for x in v.attrs.values():
+                snapshot_heap(x, acc)
+    elif isinstance(v, (list, tuple)):
+        for x in v:
+            snapshot_heap(x, acc)
+    elif isinstance(v, dict):
+        for x in v.values():
+            snapshot_heap(x, acc)
+    return acc
+
+
 def make_cex(it, r, model, describe_args):
     d = {"decisions": list(it.trace)}
     try:
         if describe_args is not None:
             d["args"] = describe_args(model, r.args)
         else:
-            d["args"] = concretize(model, r.args)
+            heap = getattr(it, "initial_heap", {})
+            now = {k: dict(o.attrs) for k, (o, a) in heap.items()}
+            for k, (o, a) in heap.items():
+                o.attrs = dict(a)
+            try:
+                d["args"] = concretize(model, r.args)
+            finally:
+                for k, (o, a) in heap.items():
+                    o.attrs = now[k]
         if r.kind == "return":
             d["engine_result"] = concretize(model, r.value)
         else:
